@@ -201,7 +201,7 @@ func H_E4_CommentLayout() {
 	checkFrontEnd([]rune(src), "E4")
 }
 
-var anyRuneContexts = [][2]string{{"", ""}, {"令X = ", ""}, {"令X", " = 1"}, {"`", "`"}, {"“", "”"}, {"注：", ""}, {"（显示：", "）"}}
+var anyRuneContexts = [][2]string{{"令甲 = 「", "」）"}, {"（显示：「", "」、、）"}, {"注：「", "」 ）"}, {"", ""}, {"令X = ", ""}, {"令X", " = 1"}, {"`", "`"}, {"“", "”"}, {"注：", ""}, {"（显示：", "）"}}
 
 // H_E1c_AnyRune: one character that may be ANY Unicode scalar value (and any
 // other int32 a []rune can hold), in seven contexts.
